@@ -103,7 +103,7 @@ def describe(prog, kind):
             "ctx": prog["ctx"]}
 
 
-def process(prog, kind, pidx, seed, growth=False, with_model=True, targets=None):
+def process(prog, kind, pidx, seed, growth=False, with_model=True, targets=None, max_faults=70):
     """all runs of one program in one way of rendering it; returns a result dict"""
     rng = random.Random("c06-%s-%s-%s" % (seed, pidx, kind))
     res = {"pidx": pidx, "kind": kind, "failures": [], "disagree": [], "term": None, "seq_term": None,
@@ -146,6 +146,9 @@ def process(prog, kind, pidx, seed, growth=False, with_model=True, targets=None)
         dry_events = dry["events"]
         runs = [(None, "str", dry)]
         todo = list(range(n)) if targets is None else [t for t in targets if t is not None and t < n]
+        if targets is None and n > max_faults:
+            # very long traces (loops): every index of the first 20 invocations, a seeded sample of the rest
+            todo = sorted(set(range(20)) | set(rng.sample(range(20, n), max_faults - 20)))
         for i in todo:
             variant = VARIANTS[(i + pidx) % len(VARIANTS)]
             U.clear_tables()
@@ -354,7 +357,8 @@ def run(tier, seed):
         for t, g in r["growth"]:
             growth_all.append(g["delta_objects"])
             if g["delta_objects"] > 200 or any(g["table_sizes"]):
-                chk.fail("c06-%s-memory-growth" % ("failed-render" if t is not None else "finished-render"),
+                cls = "failed-render" if t is not None else ("output-discarded" if U.has_drop_with_component(prog) else "finished-render")
+                chk.fail("c06-%s-memory-growth" % cls,
                          "object count grows over %d repeats of the same render" % g["repeats"],
                          {"program": prog, "kind": kind, "target": t, "growth": g, "source": describe(prog, kind)})
     bad = C.coq_eval_cases("C06", "tree", IMPORTS, "tree_case", "check_tree_fixed", terms, shard=24) if terms else []
